@@ -147,7 +147,9 @@ def run(ck, n, seed):
         f = impl.get(cid, ["missing"])
         if not f[0].startswith("ok"):
             if f[0].startswith("err codes="):
-                stats["rejected-by-typer"] += 1          # several valid shapes are (a member followed by an index as assignment target, ...)
+                # (before D68/D69 were repaired a third of these references were rejected with E500/E504)
+                stats["rejected"] += 1; bad += 1
+                ck.violation("valid-rejected:" + f[0], "a well-formed program reading or writing `%s` is rejected: %s" % (ref, f[0]), src)
                 continue
             bad += 1; ck.violation(C.failure_key(f[0]), "compiler failed on a reference %s: %s" % (ref, f[0][:200]), src); continue
         ir = C.unesc(f[1]).decode(errors="replace")
